@@ -178,9 +178,12 @@ def check_node(ctx, s, prog, v, ext=False, parent=None):
     ctx.outcome(digest((ref.outs, ref.states[-1])))
     drew = True
     prev = ref.after_seed
-    for c, st in zip(calls, ref.states):
+    for i, (c, st) in enumerate(zip(calls, ref.states)):
         if st != prev:
             ctx.flag("drew:" + c.name)
+        elif ref.rec_at[i]:
+            ctx.flag("drew:" + c.name)       # draws only from a generator it builds from (harness-owned) OS entropy
+            ctx.flag("entropy-only:" + c.name)
         else:
             drew = False
         prev = st
@@ -645,7 +648,7 @@ def finalize(ctx, tier, seed):
     strict = all(match_known(ID, sig, known) for sig in ctx.violations)
     for n in letters:
         assert ctx.counters.get("letter:" + n, 0) > 0, f"call {n} never executed"
-        assert not strict or "drew:" + n in ctx.flags, f"call {n} never advanced a global stream (trivial letter)"
+        assert not strict or "drew:" + n in ctx.flags, f"call {n} neither advanced a global stream nor requested entropy (trivial letter)"
     for n in core_names():
         assert ctx.counters.get("Q:call:" + n, 0) > 0, f"call {n} never used as pollution"
         assert not strict or "Q-changed-state:call:" + n in ctx.flags, f"pollution by {n} never changed the global state"
